@@ -429,9 +429,61 @@ class GatherMixin:
     def b_pandora_img_tools_rasterio_open(self, args, kw, st, n):
         """rasterio.open(path): an opaque reader; reader.read(band, window=w) is an ASSUMED pure function of (path, band, window)
         returning a 2-D integer array (its size is whatever the contract's precondition says)"""
+        mode = kw.get("mode", args[1] if len(args) > 1 else "r")
+        if isinstance(mode, str) and "w" in mode:
+            # a raster opened for writing: a GHOST array (count, height, width) records what is written into the file
+            from .state import alloc_array
+            cnt, hh, ww = kw.get("count"), kw.get("height"), kw.get("width")
+            if cnt is None or hh is None or ww is None:
+                raise Unsupported("rasterio_open(mode='w') without count/height/width (line %d)" % n.lineno)
+            f_ = alloc_array(st, "file", "f", [to_int(cnt), to_int(hh), to_int(ww)])
+            f_.name = "file"
+            self.local_cells.add(f_.cell)
+            files = getattr(self, "_written_files", None)
+            if files is None:
+                files = self._written_files = {}
+            files[self.content_key(args[0], st)] = f_
+            return ("rasterwriter", args[0], f_)
         return ("rasterfile", args[0])
 
     b_rasterio_open = b_pandora_img_tools_rasterio_open
+
+    def b_written_file(self, args, kw, st, n):
+        """specification only: the ghost array (band, row, col) of what the function wrote into the raster file of that path"""
+        files = getattr(self, "_written_files", None) or {}
+        f_ = files.get(self.content_key(args[0], st))
+        if f_ is None:
+            raise Unsupported("written_file: no raster was opened for writing under that path (line %d)" % n.lineno)
+        return f_
+
+    def m_write(self, recv, args, kw, st, n):
+        """writer.write(a2d, band): band `band` (1-based) of the file takes the array's values"""
+        if not (isinstance(recv, tuple) and recv and isinstance(recv[0], str) and recv[0] == "rasterwriter"):
+            raise Unsupported(".write on %r (line %d)" % (type(recv), n.lineno))
+        if args and isinstance(args[0], tuple) and args[0] and isinstance(args[0][0], str) and args[0][0] == "sview":
+            args = [self.sview_to_lazy(args[0])] + list(args[1:])
+        if len(args) != 2 or kw or not is_arr(args[0]) or len(shape_of(args[0])) != 2:
+            raise Unsupported("writer.write form: only write(<2-D array>, <band>) is modelled, got %s (line %d)"
+                              % ([type(a_).__name__ + (str(len(shape_of(a_))) if is_arr(a_) else "") for a_ in args], n.lineno))
+        f_ = recv[2]
+        a, band = args[0], zi(to_int(args[1]))
+        cnt, hh, ww = [zi(s_) for s_ in f_.shape]
+        sh = shape_of(a)
+        if not self.spec:
+            self.emit(st, "pre@call", "write.L%d" % n.lineno, z3.And(band >= 1, band <= cnt, zi(sh[0]) == hh, zi(sh[1]) == ww), n,
+                      "the band index is within the file's count and the array has the file's size (rasterio raises otherwise)")
+        src = frozen(a, st)
+        old = st.heap[f_.cell]
+        from .state import fresh_array_term
+        K = fresh_array_term("file.k", 3, fl.FK)
+        V = fresh_array_term("file.v", 3, z3.RealSort())
+        q = [z3.Int("wq%d!" % k_) for k_ in range(3)]
+        v = fl.F(_num(elem(src, [q[1], q[2]], st)))
+        hit = q[0] == band - 1
+        st.assume(z3.ForAll(q, zsel(K, q) == z3.If(hit, v.k, zsel(old[0], q)), patterns=[zsel(K, q)]))
+        st.assume(z3.ForAll(q, zsel(V, q) == z3.If(hit, v.v, zsel(old[1], q)), patterns=[zsel(V, q)]))
+        st.heap[f_.cell] = (K, V)
+        return None
 
     def m_read(self, recv, args, kw, st, n):
         if not (isinstance(recv, tuple) and recv and isinstance(recv[0], str) and recv[0] == "rasterfile"):
@@ -543,6 +595,12 @@ class GatherMixin:
             return super().assign_target(ast.Subscript(value=_Lit(base), slice=t.slice, ctx=t.ctx, lineno=t.lineno, col_offset=0), v, st, s)
         if isinstance(t, ast.Attribute):
             base = self.eval(t.value, st)
+            if isinstance(base, tuple) and base and isinstance(base[0], str) and base[0] == "rasterwriter":
+                meta = getattr(self, "_written_meta", None)
+                if meta is None:
+                    meta = self._written_meta = {}
+                meta[(id(base[2]), t.attr)] = v     # file metadata (band descriptions ...): recorded, not part of the pixel contents
+                return
             if isinstance(base, SDs) and t.attr == "attrs":
                 from .lazy import _Map
                 base.attrs = dict(v.d) if isinstance(v, _Map) else dict(v)  # xarray copies the mapping
